@@ -386,3 +386,142 @@ Proof.
   - simpl. apply P. exact IHe1.
   - rewrite pr_invoke. apply P. exact IHe.
 Qed.
+
+(* ------------------------------------------------------------------ the main lemma *)
+Lemma lbp_top_pos : forall e, 20 <= lbp_top e.
+Proof. destruct e; simpl; bp; try lia. pose proof (bpower_bounds o). lia. Qed.
+
+Definition Main (n : nat) : Prop :=
+  forall e, (size e <= n)%nat -> ok e ->
+  forall rbp rest res, 0 <= rbp -> rbp < lbp_top e -> stops (rlevel e) rest ->
+  LL rbp e rest res -> PE rbp (pr e ++ rest) res.
+
+Lemma stops_closer : forall a t r, lbp_of t = 0 -> 0 <= a -> stops a (t :: r).
+Proof. intros. simpl. lia. Qed.
+
+(* an operand, parenthesised or bare *)
+Lemma operand : forall n, Main n -> forall x, (size x <= n)%nat -> ok x ->
+  forall b rbp rest res, 0 <= rbp ->
+  (b = false -> rbp < lbp_top x /\ stops (rlevel x) rest) ->
+  LL rbp x rest res -> PE rbp (paren_if b (pr x) ++ rest) res.
+Proof.
+  intros n IH x Hs Hok b rbp rest res H0 Hb HL. destruct b; simpl.
+  - rewrite <- app_assoc. simpl. eapply PE_paren; [|exact HL].
+    apply IH; try assumption; try lia.
+    + pose proof (lbp_top_pos x). lia.
+    + apply stops_closer; [reflexivity|apply rlevel_nonneg].
+    + apply loop_stop; [lia|]. apply stops_closer; [reflexivity|lia].
+  - destruct (Hb eq_refl). apply IH; assumption.
+Qed.
+
+Lemma parse_args_other : forall f ts t r, ts = t :: r -> t <> TComma -> t <> TRParen ->
+  parse_args (S f) true ts =
+    (let? (x, r1) := parse_expr f 0 ts in
+     match r1 with
+     | TColon :: r2 =>
+       match x with
+       | EId n =>
+         let? (v, r3) := parse_expr f 0 r2 in
+         let? (rest, r4) := parse_args f false r3 in
+         Some ((Some n, v) :: rest, r4)
+       | _ => None
+       end
+     | _ =>
+       let? (rest, r4) := parse_args f false r1 in
+       Some ((None, x) :: rest, r4)
+     end).
+Proof. intros f ts t r -> H1 H2. rewrite parse_args_S. destruct t; try congruence; reflexivity. Qed.
+
+Lemma args_ok : forall n, Main n -> forall args, (size_args args <= n)%nat -> ok_args args ->
+  forall rest, PA true (pr_args args ++ TRParen :: rest) (args, rest).
+Proof.
+  intros n IH. induction args as [|[lab a] more IHm]; intros Hs Hok rest.
+  - exists 1%nat. reflexivity.
+  - simpl in Hs, Hok. destruct Hok as [Hoka Hokm].
+    set (R := (match more with [] => [] | _ => TComma :: pr_args more end) ++ TRParen :: rest).
+    assert (HR : PA false R (more, rest)).
+    { unfold R. destruct more as [|m more'].
+      - exists 1%nat. reflexivity.
+      - destruct (IHm ltac:(lia) Hokm rest) as [F HF]. exists (S F). rewrite parse_args_S. exact HF. }
+    assert (Hstop : stops 0 R /\ (forall r2, R <> TColon :: r2)).
+    { unfold R. destruct more; simpl; split; try lia; intros; discriminate. }
+    destruct Hstop as [Hstop HnotColon].
+    assert (Ha : PE 0 (pr a ++ R) (a, R)).
+    { apply IH; try assumption; try lia.
+      - pose proof (lbp_top_pos a). lia.
+      - eapply stops_mono; [exact Hstop|apply rlevel_nonneg].
+      - apply loop_stop; [lia|exact Hstop]. }
+    destruct Ha as [F1 H1]. destruct HR as [F2 H2].
+    simpl pr_args. rewrite <- !app_assoc. fold R.
+    destruct lab as [l|].
+    + (* labelled *)
+      exists (S (S (F1 + F2))). rewrite parse_args_S. simpl app.
+      assert (Hl : parse_expr (S (F1 + F2)) 0 (TId l :: TColon :: pr a ++ R) = Some (EId l, TColon :: pr a ++ R)).
+      { rewrite parse_expr_S. cbn [bindo]. destruct (F1 + F2)%nat eqn:EF; [lift H1 O; discriminate H1|].
+        rewrite led_loop_S. reflexivity. }
+      cbn [negb]. rewrite Hl. cbn [bindo].
+      lift H1 (S (F1 + F2)). lift H2 (S (F1 + F2)). rewrite H1. cbn [bindo]. rewrite H2. reflexivity.
+    + (* unlabelled *)
+      destruct (pr_head a) as (t & r & Et & Ht1 & Ht2 & Ht3).
+      exists (S (F1 + F2)). simpl app.
+      rewrite (parse_args_other _ (pr a ++ R) t (r ++ R)); [|rewrite Et; reflexivity|assumption|assumption].
+      lift H1 (F1 + F2)%nat. lift H2 (F1 + F2)%nat. rewrite H1. cbn [bindo].
+      destruct R as [|t0 R']; [rewrite H2; reflexivity|].
+      destruct t0; try (rewrite H2; reflexivity). exfalso. eapply HnotColon. reflexivity.
+Qed.
+
+(* ---- bare operands of a binary operator ---- *)
+Lemma bprec_range : forall o, 2 <= bprec o <= 11.
+Proof. destruct o; cbv; split; discriminate. Qed.
+
+Lemma right_assoc_prec : forall o, right_assoc o = true <-> bprec o = pNilCoalescing.
+Proof. destruct o; cbv; split; intros; congruence. Qed.
+
+Lemma left_right_assoc : forall o, left_assoc o = negb (right_assoc o).
+Proof. destruct o; reflexivity. Qed.
+
+Lemma bin_left_bare : forall o l rbp,
+  (if left_assoc o then prec l <? bprec o else prec l <=? bprec o) = false ->
+  rbp < bpower o -> rbp < lbp_top l /\ bpower o <= rlevel l.
+Proof.
+  intros o l rbp Hb Hr.
+  assert (Hp : bprec o <= prec l /\ (left_assoc o = false -> bprec o < prec l)).
+  { destruct (left_assoc o); [apply Z.ltb_ge in Hb|apply Z.leb_gt in Hb]; split; try lia; discriminate. }
+  destruct Hp as [Hp1 Hp2].
+  pose proof (bpower_bounds o) as Hbo. pose proof (bprec_range o) as Hpo.
+  pose proof (lbp_top_ge l) as Hl. pose proof (pw_mono _ _ ltac:(lia) Hp1) as Hm. rewrite pw_bprec in Hm.
+  split; [lia|].
+  destruct l; simpl in *; bp; try lia.
+  - destruct (z <? 0); lia.
+  - (* EBin *) rewrite pw_bprec in Hm. pose proof (bprec_range o0) as Hpo0.
+    destruct (right_assoc o0) eqn:Era; [|lia].
+    apply right_assoc_prec in Era. unfold pNilCoalescing in Era.
+    assert (Hlt : bprec o < 5).
+    { destruct (Z.eq_dec (bprec o) 5) as [E5|]; [|lia].
+      assert (right_assoc o = true) by (apply right_assoc_prec; exact E5).
+      rewrite left_right_assoc in Hp2. rewrite H in Hp2. specialize (Hp2 eq_refl). lia. }
+    pose proof (pw_step (bprec o) 5 ltac:(lia) Hlt ltac:(lia)) as Hs. rewrite pw_bprec in Hs.
+    rewrite <- Era in Hs at 1. rewrite pw_bprec in Hs. lia.
+  - destruct (match o0 with UMove => true | _ => match l with EUn _ _ => ends_in_move l | _ => false end end); lia.
+Qed.
+
+Lemma bin_right_bare : forall o r,
+  (if left_assoc o then prec r <=? bprec o else prec r <? bprec o) = false ->
+  let q := if right_assoc o then bpower o - 1 else bpower o in
+  q < lbp_top r /\ q <= rlevel r.
+Proof.
+  intros o r Hb q.
+  pose proof (bpower_bounds o) as Hbo. pose proof (bprec_range o) as Hpo. pose proof (prec_range r) as Hpr.
+  pose proof (lbp_top_ge r) as Hl.
+  assert (Hq : q < pw (prec r) /\ (prec r <= 11 -> q <= pw (prec r) - 1)).
+  { unfold q. rewrite left_right_assoc in Hb. destruct (right_assoc o); simpl in Hb.
+    - apply Z.ltb_ge in Hb. pose proof (pw_mono _ _ ltac:(lia) Hb) as Hm. rewrite pw_bprec in Hm. lia.
+    - apply Z.leb_gt in Hb. pose proof (pw_step _ _ ltac:(lia) Hb ltac:(lia)) as Hm. rewrite pw_bprec in Hm. lia. }
+  destruct Hq as [Hq1 Hq2]. split; [lia|].
+  destruct r; simpl in *; bp; try lia.
+  - destruct (z <? 0); lia.
+  - rewrite pw_bprec in *. pose proof (bprec_range o0). destruct (right_assoc o0) eqn:Era; [|lia].
+    specialize (Hq2 ltac:(lia)). lia.
+  - destruct (match o0 with UMove => true | _ => match r with EUn _ _ => ends_in_move r | _ => false end end); lia.
+  - (* ECond is never bare *) unfold pw in Hq1. simpl in Hq1. lia.
+Qed.
